@@ -2,8 +2,9 @@
   Model of gopher-lua's module loading, function by function:
     baselib.go : loRequire (cache test with LVAsBool, `loopdetection` sentinel, loader loop over
                  registry._LOADERS with message accumulation, result selection), loModule
-    loadlib.go : loLoaders (order REGENERATED: GLua/Generated/Loaders.lean), loLoaderPreload, loLoaderLua,
-                 loFindFile (over the parameter file map `St.files`)
+    loadlib.go : loLoaders (order REGENERATED: GLua/Generated/Loaders.lean), loLoaderPreload, loLoaderLua
+                 (L.LoadFile inside the searcher: a file that does not load makes the SEARCHER raise),
+                 loFindFile (over the parameter file map `St.files` / `St.broken`)
     auxlib.go  : FindTable, RegisterModule, PreloadModule
   Types, loader behaviours (what a module's code does) and the log are shared with the Spec
   (GLua/Spec/Require.lean); everything `require` itself does is transcribed here from the Go code.
@@ -21,12 +22,6 @@ import GLua.Generated.Loaders
 
 namespace GLua.Require.Model
 open GLua.Require
-
-/-- what a searcher (an element of package.loaders) pushes: a function, a message string, something else. -/
-inductive Found where
-  | fn (ld : Loader)
-  | msg (m : List String)    -- one LString; the lines it consists of (joined with "\n\t")
-  | other
 
 /-- loadlib.go loFindFile(L, name, "path"): `strings.Replace(name, ".", sep)`, split package.path at ";",
     replace "?" in every pattern, `os.Stat` each; returns the first existing path or the messages. -/
@@ -51,13 +46,10 @@ def loLoaderLua (s : St) (name : Name) : Found :=
   match loFindFile s name with
   | .inr msg => .msg msg
   | .inl path =>
-    match s.files path with                                 -- L.LoadFile(path)
+    if s.broken path then .raise (.loadErr path)            -- fn, err1 := L.LoadFile(path); err1 != nil → L.RaiseError
+    else match s.files path with
     | some b => .fn { src := .file, key := path, beh := b }
     | none => .other
-
-inductive Searcher where
-  | preload | lua | unknown
-deriving DecidableEq, Repr
 
 def searcherOfName (n : String) : Searcher :=
   if n = "loLoaderPreload" then .preload else if n = "loLoaderLua" then .lua else .unknown
@@ -65,10 +57,11 @@ def searcherOfName (n : String) : Searcher :=
 /-- `var loLoaders = []LGFunction{…}` — regenerated from loadlib.go on every run. -/
 def loLoaders : List Searcher := Generated.loLoaders.map searcherOfName
 
+/-- `L.Push(loader); L.Push(LString(name)); L.Call(1, 1)`: the library's searchers, or a Lua function a script stored. -/
 def callSearcher (s : St) (name : Name) : Searcher → Found
   | .preload => loLoaderPreload s name
   | .lua => loLoaderLua s name
-  | .unknown => .other
+  | c => scripted name c
 
 /-- the `for i := 1; ; i++` loop of loRequire over registry._LOADERS. -/
 def loaderLoop (s : St) (name : Name) : List Searcher → List String → Sum Loader RErr
@@ -78,6 +71,7 @@ def loaderLoop (s : St) (name : Name) : List Searcher → List String → Sum Lo
     | .fn ld => .inl ld                                     -- case *LFunction: goto loopbreak
     | .msg m => loaderLoop s name rest (messages ++ m)      -- case LString: append
     | .other => loaderLoop s name rest messages
+    | .raise e => .inr e                                    -- the searcher raised (L.Call propagates)
 
 /-- auxlib.go FindTable(obj, n, size) -/
 def findTableLoop (s : St) (curobj : Nat) : List String → St × LV
@@ -128,8 +122,10 @@ def loModule (s : St) (name : Name) : St × Res :=
     (s2, .ok (.tbl id))
   | (s1, _) => (s1, .err (.conflict name))                  -- "name conflict for module: %v"
 
-/-- baselib.go loRequire. `fuel` bounds the nesting depth of requires (Lua's call stack in the code). -/
-def loRequire : Nat → St → Name → St × Res
+/-- baselib.go loRequire. `fuel` bounds the nesting depth of requires (Lua's call stack in the code).
+    `loaders` = the contents of the table registry._LOADERS (the table OpenPackage created: loRequire does not
+    read the field package.loaders, so a script reaches this table only by changing it in place). -/
+def loRequireL (loaders : List Searcher) : Nat → St → Name → St × Res
   | 0, s, _ => (s, .err .fuel)
   | fuel + 1, s, name =>
     let lv := s.loaded name                                 -- L.GetField(loaded, name)
@@ -137,17 +133,20 @@ def loRequire : Nat → St → Name → St × Res
       if lv = .sentinel then (s, .err (.loop name))         -- lv == loopdetection
       else (s, .ok lv)
     else
-      match loaderLoop s name loLoaders [] with
+      match loaderLoop s name loaders [] with
       | .inr e => (s, .err e)
       | .inl modasfunc =>
         let s1 := s.setLoaded name .sentinel                -- L.SetField(loaded, name, loopdetection)
-        match runLoader { require := loRequire fuel, module := loModule } s1 modasfunc name with
+        match runLoader { require := loRequireL loaders fuel, module := loModule } s1 modasfunc name with
         | (s2, .err e) => (s2, .err e)                      -- L.Call raised: the sentinel stays
         | (s2, .ok ret) =>
           let modv := s2.loaded name                        -- modv := L.GetField(loaded, name)
           if ret ≠ .nil ∧ modv = .sentinel then (s2.setLoaded name ret, .ok ret)
           else if modv = .sentinel then (s2.setLoaded name (.bool true), .ok (.bool true))
           else (s2, .ok modv)
+
+/-- loRequire in a state whose registry._LOADERS is as OpenPackage left it. -/
+def loRequire : Nat → St → Name → St × Res := loRequireL loLoaders
 
 /-- one top-level step / a history on the Model -/
 def step (fuel : Nat) : St → Op → St × Option Res := stepWith (loRequire fuel) registerModule
